@@ -9,6 +9,7 @@ from vmon import oracle as orc
 from vmon.checks.common import obs, fail
 
 SPLIT_WAITS = "seqs"   # worker: every fifth case is built from relative messages with rests split into adjacent waits
+SCALE = True   # worker: every fortieth case is blown up by scale_case below
 PROP = "C12"
 MONITORS = ["normalise", "merge", "conv"]
 INSITU = None
@@ -25,6 +26,13 @@ FLOORS = {"quick": {"c12.tracks_compared": 2000, "c12.signature_cases": 600, "c1
           "thorough": {"c12.tracks_compared": 100000}}
 SIGS = [(4, 4), (3, 4), (6, 8), (5, 4), (2, 2), (7, 8), (12, 8), (3, 16), (1, 1), (9, 8)]
 
+
+def scale_case(case, i):
+    sp = case["seqs"][0]
+    ch = sp["notes"][0][0] if sp["notes"] else 0
+    sp["notes"] = gen.big_notes(i, n=[200, 400, 900][(i // 40) % 3], chans=(ch,), pitches=(50, 52, 55, 57), lmin=1, lmax=40, gap=(0, 30))
+    sp.pop("pad", None)
+    case["again"] = None
 
 def make_case(rng, i, tier):
     ntr = rng.randint(1, 4)
